@@ -230,12 +230,7 @@ func (r *RPCReadResponse) DecodeFrom(d *types.Decoder) {
 	//
 	// NOTE: for maximum efficiency, we should be doing this for every slice,
 	// but in most cases the extra performance isn't worth the aliasing issues.
-	dataLen := int(d.ReadUint64())
-	if cap(r.Data) < dataLen {
-		r.Data = make([]byte, dataLen)
-	}
-	r.Data = r.Data[:dataLen]
-	d.Read(r.Data)
+	r.Data = append(r.Data[:0], d.ReadBytes()...)
 
 	types.DecodeSlice(d, &r.MerkleProof)
 }
